@@ -15,6 +15,7 @@ import (
 	"os"
 	"sort"
 	"strconv"
+	"strings"
 	"time"
 
 	"github.com/prometheus/prometheus/prompb"
@@ -81,30 +82,34 @@ type mPayload struct {
 }
 
 type caseOut struct {
-	Case       int       `json:"case"`
-	DB         string    `json:"db"`
-	Dataset    int       `json:"dataset"`
-	Expr       string    `json:"expr"`
-	Form       string    `json:"form"`
-	Fn         string    `json:"fn,omitempty"`
-	RangeMs    int64     `json:"range_ms,omitempty"`
-	OffsetMs   int64     `json:"offset_ms,omitempty"`
-	Mode       string    `json:"mode"` // instant | range
-	T          int64     `json:"t,omitempty"`
-	Start      int64     `json:"start,omitempty"`
-	End        int64     `json:"end,omitempty"`
-	Step       int64     `json:"step,omitempty"`
-	HitsSample bool      `json:"hits_sample"`
-	UpErr      string    `json:"up_err,omitempty"`
-	Diff       string    `json:"diff,omitempty"`    // direct oracle: upstream vs server
-	RiDiff     string    `json:"ri_diff,omitempty"` // server: range query vs its instant queries
-	UpRiDiff   string    `json:"up_ri_diff,omitempty"`
-	NSeries    int       `json:"nseries"`
-	NPoints    int       `json:"npoints"`
-	Up         *jresult  `json:"up,omitempty"`
-	Sv         *jresult  `json:"sv,omitempty"`
-	Model      *mPayload `json:"model,omitempty"`
-	Spec       *exprCase `json:"spec,omitempty"`
+	Case        int         `json:"case"`
+	DB          string      `json:"db"`
+	Dataset     int         `json:"dataset"`
+	Expr        string      `json:"expr"`
+	Form        string      `json:"form"`
+	Fn          string      `json:"fn,omitempty"`
+	RangeMs     int64       `json:"range_ms,omitempty"`
+	OffsetMs    int64       `json:"offset_ms,omitempty"`
+	Mode        string      `json:"mode"` // instant | range
+	T           int64       `json:"t,omitempty"`
+	Start       int64       `json:"start,omitempty"`
+	End         int64       `json:"end,omitempty"`
+	Step        int64       `json:"step,omitempty"`
+	HitsSample  bool        `json:"hits_sample"`
+	UpErr       string      `json:"up_err,omitempty"`
+	Diff        string      `json:"diff,omitempty"`    // direct oracle: upstream vs server
+	RiDiff      string      `json:"ri_diff,omitempty"` // server: range query vs its instant queries
+	UpRiDiff    string      `json:"up_ri_diff,omitempty"`
+	NSeries     int         `json:"nseries"`
+	NPoints     int         `json:"npoints"`
+	Up          *jresult    `json:"up,omitempty"`
+	Sv          *jresult    `json:"sv,omitempty"`
+	Model       *mPayload   `json:"model,omitempty"`
+	Spec        *exprCase   `json:"spec,omitempty"`
+	Known       []string    `json:"known,omitempty"`       // finding ids that explain Diff / RiDiff completely
+	Unexplained bool        `json:"unexplained,omitempty"` // a disagreement outside every recorded signature
+	Explain     *explain    `json:"explain,omitempty"`
+	Replay      *replayFile `json:"replay,omitempty"` // complete input of an unexplained case
 }
 
 // comparison ------------------------------------------------------------------------------------------------
@@ -251,6 +256,11 @@ func ingest(sv *server, ds *dataset, r *gen.Rand) error {
 		return err
 	}
 	slices := 1 + r.Intn(3)
+	finalFlush := r.Chance(1, 2)
+	if ds.Slices > 0 { // replay files pin the ingestion layout
+		slices, finalFlush = ds.Slices, ds.FinalFlush
+	}
+	ds.Slices, ds.FinalFlush = slices, finalFlush
 	ds.Flushes = 0
 	for sl := 0; sl < slices; sl++ {
 		lo := baseMs + ds.SpanMs*int64(sl)/int64(slices)
@@ -283,7 +293,7 @@ func ingest(sv *server, ds *dataset, r *gen.Rand) error {
 				return err
 			}
 		}
-		if sl < slices-1 || r.Chance(1, 2) {
+		if sl < slices-1 || finalFlush {
 			if err := sv.flush(); err != nil {
 				return err
 			}
@@ -432,7 +442,30 @@ func jvec(res result) []jseries {
 	return out
 }
 
+// subsetFor keeps the series of the metrics the expression mentions (the whole set if none is recognised).
+func subsetFor(ds *dataset, expr string) dataset {
+	out := *ds
+	out.Series = nil
+	for _, s := range ds.Series {
+		if strings.Contains(expr, s.Labels["__name__"]) {
+			out.Series = append(out.Series, s)
+		}
+	}
+	if len(out.Series) == 0 {
+		out.Series = ds.Series
+	}
+	return out
+}
+
 func runCase(n int, di int, ds *dataset, u *upstream, sv *server, e exprCase, mode string, t, start, end, step int64, hit bool, r *gen.Rand) caseOut {
+	co := runCase1(n, di, ds, u, sv, e, mode, t, start, end, step, hit, r)
+	if co.Unexplained {
+		co.Replay = &replayFile{Dataset: subsetFor(ds, e.Expr), Spec: e, Mode: mode, T: t, Start: start, End: end, Step: step}
+	}
+	return co
+}
+
+func runCase1(n int, di int, ds *dataset, u *upstream, sv *server, e exprCase, mode string, t, start, end, step int64, hit bool, r *gen.Rand) caseOut {
 	co := caseOut{Case: n, DB: ds.DB, Dataset: di, Expr: e.Expr, Form: e.Form, Fn: e.Fn, RangeMs: e.RangeMs, Mode: mode, HitsSample: hit}
 	if e.Sel != nil {
 		co.OffsetMs = e.Sel.OffsetMs
@@ -451,6 +484,13 @@ func runCase(n int, di int, ds *dataset, u *upstream, sv *server, e exprCase, mo
 		co.Diff = cmpResults(up, svr)
 		if co.Diff != "" {
 			co.Up, co.Sv = toJ(up), toJ(svr)
+			ok, ex := explainDiff(ds, &e, "instant", t, t, 0, svr, func(x string) result { return u.instant(x, t) })
+			co.Explain = ex
+			if ok {
+				co.Known = ex.Rules
+			} else {
+				co.Unexplained = true
+			}
 		}
 		co.Model = buildModel(ds, &e, t, up, svr, r)
 		if e.Form == "agg" && svr.Err == "" {
@@ -470,9 +510,17 @@ func runCase(n int, di int, ds *dataset, u *upstream, sv *server, e exprCase, mo
 	}
 	svr := sv.rangeq(ds.DB, e.Expr, start, end, step)
 	co.NSeries, co.NPoints = countPts(up)
+	lastStep := start + (end-start)/step*step
 	co.Diff = cmpResults(up, svr)
 	if co.Diff != "" {
 		co.Up, co.Sv = toJ(up), toJ(svr)
+		ok, ex := explainDiff(ds, &e, "range", start, lastStep, step, svr, func(x string) result { return u.rangeq(x, start, end, step) })
+		co.Explain = ex
+		if ok {
+			co.Known = ex.Rules
+		} else {
+			co.Unexplained = true
+		}
 	}
 	// a range query equals the sequence of instant queries at its steps (checked on both engines)
 	var steps []int64
@@ -493,9 +541,19 @@ func runCase(n int, di int, ds *dataset, u *upstream, sv *server, e exprCase, mo
 			if fromSv.Err != "" {
 				co.RiDiff = "server-error at a step: " + fromSv.Err
 			}
-			if co.RiDiff != "" && co.Sv == nil {
-				co.Sv = toJ(svr)
-				co.Up = toJ(fromSv)
+			if co.RiDiff != "" {
+				if co.Sv == nil {
+					co.Sv = toJ(svr)
+					co.Up = toJ(fromSv)
+				}
+				switch {
+				case maxOffsetUnderAgg(e.Expr) > 0:
+					co.Known = addRule(co.Known, fOffAgg)
+				case rangeShorterThanStep(e.Expr, step) || (hasMatrixSelector(e.Expr) && fromSv.Err == "" && trailingLoss(fromSv, svr)):
+					co.Known = addRule(co.Known, fStepGtRange)
+				default:
+					co.Unexplained = true
+				}
 			}
 		}
 	}
